@@ -34,7 +34,7 @@ OWNER = 1
 # --------------------------------------------------------------------------- cases
 # case dict: P, fixed, num, del ('F'|'M'), seed, I = per rank list of (g, a, pub, l) sorted by g, D = per rank sorted globals
 
-OPT_DEFAULT = dict(nb=0, self=0, ign=0, gt=0, twice=0, nobar=0)
+OPT_DEFAULT = dict(nb=0, self=0, ign=0, gt=0, twice=0, nobar=0, mc=0, sf=0, da=0, ck=0, hist=0)
 
 
 def fmt_case(c):
@@ -49,7 +49,7 @@ def fmt_case(c):
         t.append(len(c["forget"]))
         for a, b in c["forget"]:
             t += [a, b]
-    for k in ("nb", "self", "ign", "gt", "twice", "nobar"):
+    for k in ("nb", "self", "ign", "gt", "twice", "nobar", "mc", "sf", "da", "ck", "hist"):
         if c.get(k):
             t.append("%s=%d" % (k, c[k]))
     if c.get("cm"):
@@ -190,7 +190,7 @@ def gen_one(rng, NP, force=None):
     force = force or {}
     P = force.get("P", rng.choice([1, 2, 2, 3, 3, 3, 4, 4, 4][:max(1, min(9, 3 * NP - 3))] if NP < 4 else [1, 2, 2, 3, 3, 3, 4, 4, 4]))
     P = min(P, NP)
-    U = rng.choice([1, 2, 3, 4, 5, 6, 8, 10]) if rng.random() > .012 else rng.choice([101, 150])   # (large: beyond one chunk of 100)
+    U = rng.choice([1, 2, 3, 4, 5, 6, 7, 8, 10]) if rng.random() > .015 else rng.choice([100, 101, 150, 200])   # (large: beyond one chunk of 100)
     shape = rng.choice(["random", "random", "chain", "star", "all", "third"])
     I = [[] for _ in range(P)]
     base = rng.choice([0, 0, 3, 100])
@@ -258,8 +258,14 @@ def gen_one(rng, NP, force=None):
     # ---- how the remote indices are built: ring / neighbour hints (constructor argument or setNeighbours), includeSelf, ignorePublic
     c["ign"] = force.get("ign", 1 if rng.random() < .15 else 0)
     c["self"] = force.get("self", 1 if rng.random() < .15 else 0)
-    c["gt"] = force.get("gt", 1 if rng.random() < .25 else 0)
-    c["twice"] = force.get("twice", rng.choice([0, 0, 0, 0, 0, 0, 1, 1, 2, 2]))
+    c["gt"] = force.get("gt", rng.choice([0, 0, 0, 0, 0, 1, 1, 2, 2, 0]))      # int/chunk 4, long/chunk 100, bigunsignedint<96>/chunk 7
+    c["twice"] = force.get("twice", rng.choice([0, 0, 0, 0, 0, 0, 1, 1, 2, 2, 3, 3]))
+    # special members / overloads / defaults / communicator kinds / object history (dimension audit)
+    c["mc"] = 1 if (dl in "Mm" and rng.random() < .35) else 0
+    c["sf"] = 1 if (dl == "F" and rng.random() < .3) else 0
+    c["da"] = 1 if rng.random() < .3 else 0
+    c["ck"] = (2 if rng.random() < .4 else 0) if P == 1 else (1 if rng.random() < .2 else 0)
+    c["hist"] = 1 if (dl != "m" and rng.random() < .2) else 0
     c["nobar"] = 1 if (c["twice"] and rng.random() < .4) else 0      # no barrier between the two syncs
     pubs = [{q[0] for q in r if (q[2] or c["ign"])} for r in I]
     if P >= 3 and dl == "F" and rng.random() < .15:
@@ -299,6 +305,8 @@ def gen_one(rng, NP, force=None):
             if any(gr["g"] == g for gr in c["grow"]):
                 g = fresh + 10 + k
             c["grow"].append(dict(p=p, g=g, a=rng.choice([1, 2, 3]), l=50 + k, to=[(q, rng.choice([1, 2, 3])) for q in sorted(to)]))
+    if c["forget"] and not c["nb"]:
+        c["hist"] = 0      # the hand-filled RemoteIndices of the forgotten-neighbour construction has never been built: rebuild() is not a no-op there
     return c
 
 
@@ -322,7 +330,7 @@ def run_impl(ctx, exe, np, cases, tag, case_timeout=30, env_extra=None, max_bad=
         part = cases[i:i + chunk]
         if bad >= max_bad:
             out += ["NOT-RUN(too many hangs/crashes)"] * (len(cases) - i); break
-        env = {"C13_CASE_TIMEOUT": str(case_timeout), "OMPI_MCA_rmaps_base_oversubscribe": "1",
+        env = {"C13_CASE_TIMEOUT": str(case_timeout), "OMPI_MCA_rmaps_base_oversubscribe": "1", "OMPI_MCA_mpi_yield_when_idle": "1",
                "ASAN_OPTIONS": "detect_leaks=0:abort_on_error=0", "UBSAN_OPTIONS": "print_stacktrace=0"}
         if env_extra: env.update(env_extra)
         cmd = ["mpirun", "--allow-run-as-root", "--oversubscribe", "-np", str(np), exe]
@@ -338,10 +346,55 @@ def run_impl(ctx, exe, np, cases, tag, case_timeout=30, env_extra=None, max_bad=
 
 
 def sections(l):
-    """[B, D, S] or [B, D, S, T] of an impl line, None when there is no observation"""
-    if is_noobs(l) or l.count(" # ") not in (2, 3):
+    """[B, D, S, T-or-None, H-or-None] of an impl line, None when there is no observation"""
+    if is_noobs(l):
         return None
-    return [x[2:] for x in l.split(" # ")]
+    parts = l.split(" # ")
+    if len(parts) < 3 or not (parts[0].startswith("B ") and parts[1].startswith("D ") and parts[2].startswith("S ")):
+        return None
+    res = [parts[0][2:], parts[1][2:], parts[2][2:], None, None]
+    for x in parts[3:]:
+        if x.startswith("T "): res[3] = x[2:]
+        elif x.startswith("H "): res[4] = x[2:]
+        else: return None
+    return res
+
+
+def parse_world(w):
+    """world dump -> [(iset, lists)] with iset = [(g, a, l-string, pub)], lists = {q: [(g, la, ra, k)]}"""
+    out = []
+    for r in strip_obs(w, False).split(" / "):
+        head, _, tail = r.partition(" R")
+        iset = []
+        for t in head.split()[1:]:
+            g, a, l, p = t.split(".")
+            iset.append((int(g), int(a), l, int(p)))
+        lists = {}
+        for t in tail.split():
+            q, _, es = t.partition(":")
+            lists[int(q)] = [tuple(int(x) if x != "!" else -1 for x in e.split(".")) for e in es.split(",") if e]
+        out.append((iset, lists))
+    return out
+
+
+def world_rebuilt_from(c, w):
+    """what rebuild produces on the index sets of the world dump w (pairwise intersection of the public copies, all copies with
+    ignorePublic; only hinted pairs with neighbour hints), in dump format"""
+    ws = parse_world(w)
+    pubs = [{g: a for g, a, l, p in iset if (p or c.get("ign"))} for iset, _ in ws]
+    res = []
+    for p, (iset, _) in enumerate(ws):
+        posn = {x[0]: k for k, x in enumerate(iset)}
+        s = "I" + "".join(" %d.%d.%s.%d" % x for x in iset) + " R"
+        for q in range(len(ws)):
+            if q == p:
+                continue
+            common = sorted(set(pubs[p]) & set(pubs[q]))
+            if not common or (c.get("nb") and (q not in c["hints"][p] or p not in c["hints"][q])):
+                continue
+            s += " %d:%s" % (q, ",".join("%d.%d.%d.%d" % (g, pubs[p][g], pubs[q][g], posn[g]) for g in common))
+        res.append(s + " Y 1")
+    return " / ".join(res)
 
 
 def s_of(l):
@@ -421,11 +474,13 @@ def judge(c, line, impl, m2, exp_B, exp_D):
     sec = sections(impl)
     if sec is None:
         return "corr", "corr:C13/dump", "unreadable impl line"
-    B, D, S = sec[:3]
-    T = sec[3] if len(sec) > 3 else None
+    B, D, S, T, H = sec
     if strip_obs(B) != exp_B:
         return "corr", "corr:C13/rebuild", "state after RemoteIndices::rebuild differs from the pairwise intersection (C04 territory)"
     if strip_obs(D, False) != strip_obs(exp_D, False):
+        if c["del"] in "Mm" and c.get("mc"):
+            return "violation", "C13:RemoteIndexListModifier:copy-constructor", \
+                   "deletion through a COPY of each RemoteIndexListModifier<T,A,true> (remove + repairLocalIndexPointers on the copy): got [%s] expected [%s]" % (strip_obs(D, False), strip_obs(exp_D, False))
         if c["del"] in "Mm":
             return "violation", "C13:RemoteIndexListModifier:repairLocalIndexPointers", \
                    "after RemoteIndexListModifier<T,A,true>::remove + repairLocalIndexPointers() the remote entries do not point to their pairs: got [%s] expected [%s]" % (strip_obs(D, False), strip_obs(exp_D, False))
@@ -448,8 +503,21 @@ def judge(c, line, impl, m2, exp_B, exp_D):
         return "violation", "C13:numberer:calls", nr
     if Sx != fixed:
         return "corr", "corr:C13/sync", "impl state after sync differs from the model's (oracle accepts the impl's state)"
+    if c.get("hist") == 1:
+        if H is None or H.count(" ## ") != 2:
+            return "violation", "C13:history:rebuild-after-sync", "no observation of the rebuild after sync"
+        h1, h2, st = H.split(" ## ")
+        last = strip_obs(T) if T is not None else Sx
+        if strip_obs(h1) != last:
+            return "violation", "C13:history:rebuild-after-sync", "rebuild() on the synced RemoteIndices is not a no-op: [%s]" % strip_obs(h1)
+        if st.strip() != "stale=1":
+            return "violation", "C13:history:rebuild-after-sync", "isSynced() still true after a resize of the index set"
+        exp_h = world_rebuilt_from(c, last)
+        if strip_obs(h2) != exp_h:
+            return "violation", "C13:history:rebuild-after-sync", \
+                   "rebuild() after sync + resize (free() of the lists the syncer allocated, full rebuild) differs from the pairwise intersection of the synced sets: got [%s] expected [%s]" % (strip_obs(h2), exp_h)
     if c.get("twice"):
-        which = "same-object" if c["twice"] == 2 else "fresh-object"
+        which = {2: "same-object", 3: "copied-object"}.get(c["twice"], "fresh-object")
         if T is None:
             return "violation", "C13:sync:second-call-" + which, "no observation of the second sync"
         # sync is a fixpoint only on FULL knowledge (C13_sync_idempotent: consistent worlds); with restricted hints, forgotten
@@ -485,11 +553,12 @@ def run(ctx):
     rng = ctx.rng("gen")
     cases = [parse_case(l) for l in corpus_cases()]
     ncorp = len(cases)
-    N = 1500 if quick else 12000
+    N = 1100 if quick else 12000
     for n in range(N):
         cases.append(gen_one(rng, NP))
     # small exhaustive-ish scope: 2 and 3 ranks, every deletion subset of a fixed 3-rank decomposition with third-party knowledge
-    base = dict(P=3, fixed=1, num=1, seed=0, forget=[], hints=[[], [], []], grow=[], cm=[], nb=0, self=0, ign=0, gt=0, twice=0, nobar=0, I=[[(1, 1, 1, 0), (2, 2, 1, 1), (4, 3, 1, 2)], [(1, 2, 1, 1), (2, 1, 1, 0), (3, 1, 1, 2)],
+    base = dict(P=3, fixed=1, num=1, seed=0, forget=[], hints=[[], [], []], grow=[], cm=[], nb=0, self=0, ign=0, gt=0, twice=0, nobar=0,
+                mc=0, sf=0, da=0, ck=0, hist=0, I=[[(1, 1, 1, 0), (2, 2, 1, 1), (4, 3, 1, 2)], [(1, 2, 1, 1), (2, 1, 1, 0), (3, 1, 1, 2)],
                                                 [(1, 3, 1, 0), (2, 3, 1, 1), (3, 2, 1, 2), (4, 1, 1, 3)]], **{"del": "F"})
     copies = [(r, q[0]) for r in range(3) for q in base["I"][r] if q[1] != OWNER]
     for mask in range(1 << len(copies)):
@@ -588,7 +657,8 @@ def run(ctx):
 
     nviol = ncorr = 0
     dist = {"P": {}, "del": {}, "num": {}, "fixed": {}, "deleted_copies": {}, "forgotten_neighbour_pairs": {}, "neighbour_hints": {}, "includeSelf": {},
-            "ignorePublic": {}, "global_index_type": {}, "second_sync": {}, "second_sync_without_barrier": {}, "communicator": {}, "grown_pairs": {}, "large": {}, "restore_pre": {}, "new_entries": 0,
+            "ignorePublic": {}, "global_index_type": {}, "second_sync": {}, "second_sync_without_barrier": {}, "communicator": {}, "modifier_copied": {}, "receive_side_modifier": {},
+            "defaults_swapped": {}, "communicator_kind": {}, "rebuild_after_sync": {}, "grown_pairs": {}, "large": {}, "restore_pre": {}, "new_entries": 0,
             "new_neighbours_discovered": 0}
     nontrivial = set()
     oi_bad = cnt_bad = 0
@@ -602,7 +672,8 @@ def run(ctx):
         sm = split_model(m2[j])
         for k, v in (("P", c["P"]), ("del", c["del"]), ("num", c["num"]), ("fixed", c["fixed"]), ("deleted_copies", min(9, sum(len(d) for d in c["D"]))),
                      ("forgotten_neighbour_pairs", len(c.get("forget") or [])), ("neighbour_hints", c["nb"]), ("includeSelf", c["self"]),
-                     ("ignorePublic", c["ign"]), ("global_index_type", "long/N=100" if c["gt"] else "int/N=4"), ("second_sync", c["twice"]), ("second_sync_without_barrier", c["nobar"]),
+                     ("ignorePublic", c["ign"]), ("global_index_type", ["int/N=4", "long/N=100", "bigunsignedint<96>/N=7"][c["gt"]]), ("second_sync", c["twice"]), ("second_sync_without_barrier", c["nobar"]), ("modifier_copied", c["mc"]), ("receive_side_modifier", c["sf"]),
+                     ("defaults_swapped", c["da"]), ("communicator_kind", {0: "split/world", 1: "dup", 2: "MPI_COMM_SELF"}[c["ck"]]), ("rebuild_after_sync", c["hist"]),
                      ("communicator", "world order" if not c["cm"] else ("split: same ranks, other order" if sorted(c["cm"]) == list(range(c["P"])) else "split: other world ranks")),
                      ("grown_pairs", len(c["grow"])), ("large", 1 if max(len(r) for r in c["I"]) > 50 else 0)):
             dist[k][str(v)] = dist[k].get(str(v), 0) + 1
